@@ -15,14 +15,14 @@ def run(m):
         p = f"{d}/src/mdpax/{m['file']}"; s = open(p).read()
         if m["old"] not in s: return m, "PATTERN-NOT-FOUND", "", False
         open(p, "w").write(s.replace(m["old"], m["new"], 1))
-        env = dict(os.environ, MDPAX_SRC=d + "/src", VERIF_NO_HARNESS="1")
+        env = dict(os.environ, MDPAX_SRC=d + "/src", VERIF_NO_HARNESS="1", VERIF_OUT_DIR=d)
         pr = subprocess.run([os.path.join(ROOT, "bin", "check"), m["property"], "--tier", "quick"], capture_output=True, text=True, env=env, cwd=ROOT)
         out = pr.stdout
         obl = []
         for l in out.splitlines():
             mm = re.search(r"VIOLATION property=\S+ replay=(\S+)", l)
             if mm:
-                try: obl.append(json.load(open(os.path.join(ROOT, mm.group(1))))["obligation"])
+                try: obl.append(json.load(open(mm.group(1) if os.path.isabs(mm.group(1)) else os.path.join(ROOT, mm.group(1))))["obligation"])
                 except Exception: pass
         if m["expect"] == "none": good = pr.returncode == 0
         else: good = pr.returncode == 1 and any(m["expect"] in o for o in obl)
